@@ -81,7 +81,10 @@ def evalVerb (argv : List String) : Option ((List Rec → List Rec) × Option (L
   | "cut" :: rest => do
     let o ← parseOpts ["-f"] rest {}
     let fs ← (o.get "-f").map fieldsOf
-    if o.flags.any (fun f => f != "-o" && f != "-x") then none
+    if o.flags.any (fun f => f != "-o" && f != "-x" && f != "-r") then none
+    if o.has "-r" then
+      let cs ← fs.mapM Regex.compileMiller
+      return (List.map (cutRegex cs (o.has "-o") (o.has "-x")), none)
     if o.has "-x" then pure (List.map (cutExclude fs), none)
     else if o.has "-o" then pure (List.map (cutIncludeArgOrder fs), none)
     else pure (List.map (cutInclude fs), none)
